@@ -88,6 +88,11 @@ func EnumPaths(ns []*Node, max int) ([]Path, bool) {
 						p.Guards = append(p.Guards, g)
 					}
 					for _, q := range rec(cs.Kids, p) {
+						if q.Exit == "break" {
+							// an unlabelled break in a case body leaves the switch (loops are opaque
+							// steps, so this break is not a loop's): control goes on after it
+							q.Exit = ""
+						}
 						if q.Exit != "" {
 							out = append(out, q)
 						} else {
